@@ -70,7 +70,7 @@ ASSUMPTIONS = ["texts are sampled from the token-pool grammar described in the r
                "step budget: function entries in _griffe <= STEP_FACTOR*(lines+10)^2 + STEP_PER_CHAR*len(text) (the second term "
                "covers the expression builder, whose work is proportional to the length of an annotation, not to the line count)",
                "parents come from 3 literal modules visited statically and one module built through the model API (no inspected / alias parents)"]
-SHARD_TIMEOUT = {"quick": 600, "thorough": 3600}
+SHARD_TIMEOUT = {"quick": 900, "thorough": 7200}
 
 STEP_FACTOR = 40          # calibrated: observed max of steps/(lines+10)^2 is reported as observed_maxima.steps_over_quadratic
 STEP_PER_CHAR = 12
